@@ -488,6 +488,61 @@ def logon_body(acc):
                     logon_body_case(acc, state, lb, cls, at, uid=uid)
 
 
+def stale_buffer(acc):
+    """One read carries a frame that ends the connection (too-low MsgSeqNum -> Logout; wrong CompID) FOLLOWED by complete
+    valid frames. Those belong to the connection that just died: on the next connection of the same object nothing of them
+    may be delivered, answered or counted - there the Logon exchange has not even begun."""
+    for role in ("acceptor", "initiator"):
+        for killer in ("seq-low", "sender-wrong"):
+            for tail in ("D", "A+D", "1"):
+                case = {"stale_buffer": [role, killer, tail]}
+
+                def bad(sig, detail, c=None):
+                    acc.violation("C11:" + sig, detail + f" | role={role} killer={killer} tail={tail}", c or case)
+
+                b = Bench(role, "active", next_in=14, next_out=4)
+                try:
+                    E = b.E
+                    kf = build_frame(b, "0", killer, E, 1)
+                    tails = {"D": [ref_msg("D", b.peer, b.me, E, [(11, "stale")])],
+                             "A+D": [ref_msg("A", b.peer, b.me, E, [(98, 0), (108, 30)]), ref_msg("D", b.peer, b.me, E + 1, [(11, "stale")])],
+                             "1": [ref_msg("1", b.peer, b.me, E, [(112, "STALE")])]}[tail]
+                    b.mark()
+                    b.link.readers[b.side].feed(kf + b"".join(tails))
+                    b.w.idle()
+                    if not b.disconnected():
+                        bad("not-disconnected/" + killer, f"endpoint is {b.ep.connection_state.name}")
+                        continue
+                    s0 = snapshot(b)
+                    b.w.advance(1.01)
+                    if role == "acceptor":
+                        b.link = b.w.attach_server_only()
+                    else:
+                        b.ep.auto_logon = False
+                        b.w.connect_client()
+                        b.link = b.w.link
+                    b.reader, b.writer = b.link.readers[b.side], b.link.writers[b.side]
+                    b.w.idle()
+                    ev0 = len(b.ep.events)
+                    b.link.readers[b.side].feed(b"\n")  # the new peer has said nothing that is a frame
+                    b.w.idle()
+                    b.w.advance(2.0)
+                    s1 = snapshot(b)
+                    evs = [e[0] for e in b.ep.events[ev0:]]
+                    wr = [ref_get(ref_parse_(x), 35) for _, x in b.link.writers[b.side].written]
+                    if s1["msgs"] != s0["msgs"]:
+                        bad("stale-buffer/delivered-on-next-connection", f"on_message called on the new connection for a frame received on the old one")
+                    if "logon" in evs:
+                        bad("stale-buffer/on_logon-on-next-connection", f"callbacks {evs} although the new peer sent no Logon")
+                    if s1["E"] != s0["E"]:
+                        bad("stale-buffer/inbound-counter-advanced", f"next_num_in {s0['E']} -> {s1['E']} on the new connection before any frame arrived on it")
+                    if [m for m in wr if m not in ("5",)]:
+                        bad("stale-buffer/acted-upon", f"the endpoint wrote {wr} on the new connection before any frame arrived on it")
+                    acc.case(("stale", role, killer, tail), cls=["stale-buffer", f"role={role}"])
+                finally:
+                    b.close()
+
+
 def product(acc, state):
     uid = 0
     for cls in CLASSES:
@@ -641,7 +696,7 @@ def interleaved(acc, depth):
 
 
 def plan(tier, seed):
-    jobs = [("product", {"state": s}) for s in STATES] + [("disconnected_states", {})] + [("logon_body", {})] + [("interleaved", {"depth": 5 if tier == "quick" else 7})]
+    jobs = [("product", {"state": s}) for s in STATES] + [("disconnected_states", {})] + [("logon_body", {})] + [("stale_buffer", {})] + [("interleaved", {"depth": 5 if tier == "quick" else 7})]
     n, k = (150, 4) if tier == "quick" else (6000, 8)
     jobs += [("hyp_shard", {"n": n, "seed": derive_seed(seed, PROPERTY, i)}) for i in range(k)]
     return jobs
@@ -653,6 +708,9 @@ def replay(acc, case):
         return
     if "disconnected" in case:
         disconnected_states(acc)
+        return
+    if "stale_buffer" in case:
+        stale_buffer(acc)
         return
     if "logon_body" in case:
         logon_body_case(acc, case["state"], case["logon_body"], case["cls"], case["at"])
